@@ -663,12 +663,13 @@ structure WorkItem where
   node : Key
   predecessorIndex : Nat := 0
 
-/-- the depth-first search from the entry node (`stack` has its top at the head) -/
-def cycleSearch (pred : Graph) : Nat → List WorkItem → List Key → List Key → List Key
-  | 0, _, cycleList, _ => cycleList
+/-- the depth-first search from the entry node (`stack` has its top at the head); `none`: out of fuel (the C++
+search has no bound: it keeps searching) -/
+def cycleSearch (pred : Graph) : Nat → List WorkItem → List Key → List Key → Option (List Key)
+  | 0, _, _, _ => none
   | fuel + 1, stack, cycleList, cycleItems =>
     match stack with
-    | [] => cycleList
+    | [] => some cycleList
     | entry :: below =>
       let predecessors := pred.get entry.node
       -- If the index is 0, we just started visiting the node.
@@ -677,7 +678,7 @@ def cycleSearch (pred : Graph) : Nat → List WorkItem → List Key → List Key
       let cycleList := if started then cycleList ++ [entry.node] else cycleList
       let cycleItems := if started && !found then entry.node :: cycleItems else cycleItems
       -- If the node is already in the stack, we found a cycle.
-      if found then cycleList else
+      if found then some cycleList else
       -- Visit the next predecessor, if possible.
       match predecessors[entry.predecessorIndex]? with
       | some child =>
@@ -689,7 +690,7 @@ def cycleSearch (pred : Graph) : Nat → List WorkItem → List Key → List Key
 
 /-- `findCycle(buildKey)`.  The C++ walks three hash containers; the result does not depend on their
 order because every predecessor list is sorted (by key NAME) before the search.  `none`: the walk
-over the scan records of all `IsScanning` rules reads a freed record (or ran out of fuel). -/
+over the scan records of all `IsScanning` rules reads a freed record, or the walk / the search ran out of fuel. -/
 def findCycle (buildKey : Key) (s : State) : Option (List Key) :=
   -- Gather all of the successor relationships.
   let successorGraph : Graph := s.taskInfos.foldl (fun g p =>
@@ -707,7 +708,7 @@ def findCycle (buildKey : Key) (s : State) : Option (List Key) :=
     entry.2.foldl (fun pg succ => pg.push succ entry.1) pg) []
   -- Normalize predecessor order.
   let predecessorGraph := predecessorGraph.map (fun entry => (entry.1, sortBy keyLt entry.2))
-  some (cycleSearch predecessorGraph loopFuel [{ node := buildKey }] [] [])
+  cycleSearch predecessorGraph loopFuel [{ node := buildKey }] [] []
 
 /-- `findRuleScanRequestForRule` + `erase`: drop the first scan request of `k` -/
 def eraseScanRequestForRule (k : Key) : List RuleScanRequest → List RuleScanRequest
@@ -752,6 +753,7 @@ def breakCycle (cycleList : List Key) (s : State) : Bool × State := breakCycleL
 /-- `resolveCycle(buildKey)` -/
 def resolveCycle (buildKey : Key) (s : State) : Bool × State :=
   match findCycle buildKey s with
+  -- (also reached when the model's search runs out of fuel, where the C++ would keep searching)
   | none => (false, halt (.BAD "use-of-freed-scan-record") s)
   | some cycleList =>
   let (broken, s) := breakCycle cycleList s
